@@ -58,6 +58,7 @@ func C04(r *core.Run) {
 	jsonNameProvenance(r)
 	nameAffinity(r, convRel, "fields.go")
 	nameAffinity(r, schemaRel, "schema_from_proto.go")
+	fieldAttributes(r) // name, JSON name, number and the optional marker: what the reader recovers them from
 	sourceCoverage(r)
 	attributeIndependence(r, "sym_sites", "*")
 	attributeIndependenceIn(r, schemaRel, []string{"buf.build/gen/go/bufbuild/protovalidate/protocolbuffers/go/buf/validate", core.Module + "/gen/j5/ext/v1/ext_j5pb", core.Module + "/gen/j5/list/v1/list_j5pb"}, "sym_sites",
@@ -77,32 +78,34 @@ func slotAgreement(r *core.Run) {
 	}
 	// writer: format constant -> wrapper names
 	wmap := map[string]map[string]bool{}
-	ast.Inspect(core.TreeBody(wpk, wfd), func(n ast.Node) bool {
-		cc, ok := n.(*ast.CaseClause)
-		if !ok || len(cc.List) != 1 {
-			return true
+	// code that runs under `<x>.Format == FORMAT_X`, spelled as a switch clause or as an if
+	for _, rg := range core.GuardedRegions(core.TreeBody(wpk, wfd)) {
+		_, c, ok := core.EqConst(wpk.TypesInfo, rg.Cond)
+		if !ok {
+			continue
 		}
-		f := core.ExprStr(cc.List[0])
+		f := core.ExprStr(c)
 		if !strings.Contains(f, "_FORMAT_") {
-			return true
+			continue
 		}
 		f = f[strings.LastIndex(f, ".")+1:]
-		ast.Inspect(cc, func(x ast.Node) bool {
-			if cl, ok := x.(*ast.CompositeLit); ok {
-				tn := core.TypeStr(wpk.TypesInfo.TypeOf(cl))
-				for _, p := range []string{"list_j5pb.FieldConstraint_", "validate.FieldConstraints_"} {
-					if i := strings.Index(tn, p); i >= 0 {
-						if wmap[f] == nil {
-							wmap[f] = map[string]bool{}
+		for _, st := range rg.Body {
+			ast.Inspect(st, func(x ast.Node) bool {
+				if cl, ok := x.(*ast.CompositeLit); ok {
+					tn := core.TypeStr(wpk.TypesInfo.TypeOf(cl))
+					for _, p := range []string{"list_j5pb.FieldConstraint_", "validate.FieldConstraints_"} {
+						if i := strings.Index(tn, p); i >= 0 {
+							if wmap[f] == nil {
+								wmap[f] = map[string]bool{}
+							}
+							wmap[f][p[:strings.Index(p, ".")]+":"+tn[i+len(p):]] = true
 						}
-						wmap[f][p[:strings.Index(p, ".")]+":"+tn[i+len(p):]] = true
 					}
 				}
-			}
-			return true
-		})
-		return true
-	})
+				return true
+			})
+		}
+	}
 	// reader: per clause, Format constant in returned literal + getters on ext.list / ext.validate
 	rmap := map[string]map[string]bool{}
 	rpos := map[string]token.Pos{}
@@ -339,6 +342,29 @@ func evalFlagCond(info *types.Info, cond ast.Expr) ([3]bool, bool) {
 			b, ok2 := evalFlagCond(info, x.Y)
 			if ok1 && ok2 {
 				return [3]bool{a[0] || b[0], a[1] || b[1], a[2] || b[2]}, true
+			}
+		}
+	case *ast.Ident:
+		// a boolean local defined once from a flag form: `exclusive := p != nil && *p`
+		if bt, ok := info.TypeOf(x).Underlying().(*types.Basic); ok && bt.Info()&types.IsBoolean != 0 && core.Current != nil {
+			if fd := core.Current.EnclosingDecl(x.Pos()); fd != nil && fd.Body != nil {
+				obj := info.Uses[x]
+				var def ast.Expr
+				n := 0
+				ast.Inspect(fd.Body, func(nd ast.Node) bool {
+					if as, ok := nd.(*ast.AssignStmt); ok && len(as.Lhs) == len(as.Rhs) {
+						for i, l := range as.Lhs {
+							if li, ok := l.(*ast.Ident); ok && obj != nil && (info.Defs[li] == obj || info.Uses[li] == obj) {
+								n++
+								def = as.Rhs[i]
+							}
+						}
+					}
+					return true
+				})
+				if n == 1 && def != nil {
+					return evalFlagCond(info, def)
+				}
 			}
 		}
 	case *ast.StarExpr:
